@@ -309,6 +309,7 @@ def _loop_contract(fname, shape):
                    "input; unknown keys follow the addition policy; collecting reports exactly one error per failing item."
                    % (shape.tag or "main", fname))
         cases = _cases(shape)
+        replay = fname
         case_props = {cn: (["C05", "C06", "C10"] if cn.endswith("collect") else ["C05", "C06"]) for cn in _cases(shape)}
         setup = staticmethod(_setup)
         concrete_dicts = True
